@@ -327,6 +327,10 @@ func (r *tileHashReader) ReadHashes(indexes []int64) ([]Hash, error) {
 		tileOrder[tile] = len(tiles)
 		tiles = append(tiles, tile)
 	}
+	// The tiles planned so far are authenticated by recomputing the tree hash.
+	// There can be fewer of them than len(stx), because one tile
+	// can hold several of the hashes needed for the tree hash.
+	stxTiles := len(tiles)
 
 	// Plan to fetch tiles containing the indexes,
 	// along with any parent tiles needed
@@ -407,7 +411,7 @@ func (r *tileHashReader) ReadHashes(indexes []int64) ([]Hash, error) {
 	}
 
 	// Authenticate full tiles against their parents.
-	for i := len(stx); i < len(tiles); i++ {
+	for i := stxTiles; i < len(tiles); i++ {
 		tile := tiles[i]
 		p := tileParent(tile, 1, r.tree.N)
 		j, ok := tileOrder[p]
